@@ -18,6 +18,7 @@ EXPLANATION_ADDED2 = ' (R9) length observers read the cached length; R3 also for
 EXPLANATION = EXPLANATION + " Added while testing against seeded changes: " + EXPLANATION_ADDED + EXPLANATION_ADDED2
 EXPLANATION = EXPLANATION + ' Round 10: R2 also covers every in-place shrinking of a stored chunk (split_to / copy_to_bytes need a strict bound or removal of the emptied chunk; truncate / split_off a non-zero kept length).'
 EXPLANATION = EXPLANATION + ' Rounds 14-15 and the value sweep: (R10) caller-supplied counts and indices are used as given (no bit operation, scaling or constant offset on a value derived from an integer parameter).'
+EXPLANATION = EXPLANATION + ' Rounds 16-17: (R11) a bounds test that diverges lets `arg == len` through in split_to / split_off / truncate / advance / insert.'
 ASSUMPTIONS = [
     "rustc MIR construction is faithful; Vec/Bytes/slice library calls behave as documented "
     "(index/split_at/split_off panic out of range)",
